@@ -1,6 +1,7 @@
 package main
 
 import (
+	"bytes"
 	"github.com/postalsys/muti-metroo/internal/identity"
 	"github.com/postalsys/muti-metroo/internal/protocol"
 	"github.com/postalsys/muti-metroo/verifharness/vh"
@@ -608,6 +609,36 @@ func allKinds() []*kind {
 		func(m any) string {
 			h := m.(headerOut)
 			return cTup(cN(uint64(h.Type)), cN(uint64(h.Flags)), cN(uint64(h.Length)), cN(h.StreamID))
+		}))
+
+	// the streaming entry point: FrameReader.Read on a byte stream (header, then payload)
+	add(simple("FrameRead",
+		func(r *vh.Rand, over bool) any { // raw stream bytes: a frame (sometimes cut or followed by more), or a bare header
+			n := r.Pick(0, 1, 3, 14, 100)
+			l := uint32(n)
+			if over {
+				l = uint32(r.PickU64(16385, 65536, 1<<24))
+			}
+			b := []byte{gU8(r), gU8(r), byte(l >> 24), byte(l >> 16), byte(l >> 8), byte(l), 0, 0, 0, 0, 0, 0, 0, byte(r.U64())}
+			b = append(b, r.Bytes(n)...)
+			switch r.Intn(4) {
+			case 0:
+				b = b[:r.Intn(len(b)+1)]
+			case 1:
+				b = append(b, r.Bytes(1+r.Intn(20))...)
+			}
+			return b
+		}, nil,
+		func(b []byte) (any, error) {
+			f, err := protocol.NewFrameReader(bytes.NewReader(b)).Read()
+			if err != nil {
+				return nil, err
+			}
+			return frameMsg{f.Type, f.Flags, f.StreamID, f.Payload}, nil
+		},
+		func(m any) string {
+			f := m.(frameMsg)
+			return cTup(cN(uint64(f.Type)), cN(uint64(f.Flags)), cN(f.StreamID), cB(f.Payload))
 		}))
 
 	add(simple("PeerHello",
